@@ -11,8 +11,9 @@ CONSTANTS
   DnsPort = {2}
   Allowed = {1, 2}
   Fam <- MCFam
-  CClasses = {"1"}
-  RClasses = {"1"}
+  DgAlpha <- DgC03
+  RpAlpha <- RpC03
+  Sync = FALSE
   T = 2
   DNST = 3
   Ticks = {3}
@@ -22,6 +23,6 @@ CONSTANTS
   MaxAssoc = 3
   Slack = 0
   ZonedPanics = FALSE
-INVARIANTS TypeOK MechNat FwdAuthentic FwdOnce ReplyAuthentic SaltsFresh CreateOnlyValid SrcPrivate SrcStable OwnerOnly OnePerClient NoCrash
+INVARIANTS TypeOK MechNat FwdAuthentic FwdOnce ReplyAuthentic ReplyOnce SaltsFresh CreateOnlyValid CreateOnce SrcPrivate OwnerOnly OnePerClient NoCrash HandleTotal
 VIEW View
 CHECK_DEADLOCK FALSE
